@@ -1,6 +1,7 @@
 package checks
 
 import (
+	"context"
 	"fmt"
 	"math"
 	"sync"
@@ -19,7 +20,7 @@ func TestC20(t *testing.T) {
 	mon.Main(t, mon.Check{
 		ID:    "C20",
 		Level: "exploration",
-		Rule:  "a real gbn.TimeoutManager is driven directly, inside a virtual-time bubble, with PRNG histories of 50-2000 Sent/Received events over SYN, SYNACK, DATA(seq), ACK(seq), NACK, FIN with arbitrary sequence numbers (ACKs for never-sent, resent and reused numbers included) and inter-event gaps from 0 to 1 h; multipliers 1..20, update frequencies 1..200, boost 1%..300% plus out-of-range values (0, negative: ignored by the option, the default 50% stays; 0.1%, 1000%, 5000%), static and adaptive mode, handshake timeouts 0.2-5 s. After every event GetResendTimeout/GetHandshakeTimeout are compared with a shadow derived from the statement: adaptive value >= 1 s; it is recomputed only at Received(ACK k) whose latest Sent(DATA k) was not a resend and was not consumed yet (and the update frequency permits), or at Received(SYN/SYNACK) with an unresent pending SYN, and then equals max(1s, multiplier*RTT); it increases only at Sent(DATA, resent) by exactly boost%*base and at most once per base interval; static mode: both timeouts constant. One case in ten instead samples the timeouts of live connections of the random fault engine at every packet they transmit (floor in adaptive mode, constancy in static mode). Non-trivial = history with at least one fresh sample and one boost; distinct = hash of the event-kind sequence.",
+		Rule:  "a real gbn.TimeoutManager is driven directly, inside a virtual-time bubble, with PRNG histories of 50-2000 Sent/Received events over SYN, SYNACK, DATA(seq), ACK(seq), NACK, FIN with arbitrary sequence numbers (ACKs for never-sent, resent and reused numbers included) and inter-event gaps from 0 to 1 h; multipliers 1..20, update frequencies 1..200, boost 1%..300% plus out-of-range values (0, negative: ignored by the option, the default 50% stays; 0.1%, 1000%, 5000%), static and adaptive mode, handshake timeouts 0.2-5 s. After every event GetResendTimeout/GetHandshakeTimeout are compared with a shadow derived from the statement: adaptive value >= 1 s; it is recomputed only at Received(ACK k) whose latest Sent(DATA k) was not a resend and was not consumed yet (and the update frequency permits), or at Received(SYN/SYNACK) with an unresent pending SYN, and then equals max(1s, multiplier*RTT); it increases only at Sent(DATA, resent) by exactly boost%*base and at most once per base interval; static mode: both timeouts constant. One case in ten instead samples the timeouts of live connections of the random fault engine at every packet they transmit (floor in adaptive mode, constancy in static mode). One case in twenty is a live handshake whose first 0-2 SYNs are lost over a link with multiplier x round trip above the floor (no loss: the value after the handshake must be multiplier x round trip; loss: the answered SYN is a retransmission and the value must still be the default), one in twenty a live NACK-driven retransmission whose acknowledgements are held back 1-2 s with multiplier 50 and update frequency 1 (only boosts may raise the value). Non-trivial = history with at least one fresh sample and one boost; distinct = hash of the event-kind sequence.",
 		Assumptions: []string{
 			"the shadow compares durations with a relative tolerance of 1e-5 (the implementation multiplies in float32)",
 		},
@@ -107,9 +108,183 @@ func runC20Live(c *mon.Case) {
 	}
 }
 
+// runC20LiveHandshake: "recomputed only from round-trip samples of packets that
+// were not retransmitted" where the caller of the timeout manager decides what
+// counts as a retransmission: the client's handshake. The first k SYNs of a
+// real NewClientConn are lost (k = 0 is the control), the link's round trip
+// times the configured multiplier is well above the one-second floor, and the
+// client's resend timeout is read through the hook the moment the constructor
+// returns (nothing else has been sent). k = 0: the SYN's echo is a valid
+// sample and the value must be multiplier x round trip. k > 0: the SYN that
+// was answered is a retransmission, there is no valid sample, and the value
+// must still be the one-second default.
+func runC20LiveHandshake(c *mon.Case) {
+	rng := c.Rng
+	k := (c.Idx / 10) % 3
+	mult := []int{5, 20, 50}[rng.Intn(3)]
+	lat := time.Duration(150+rng.Intn(250)) * time.Millisecond // m*2*lat >= 1.5 s
+	hs := time.Duration(1000+rng.Intn(1000)) * time.Millisecond
+	conf := eng.GBNConf{N: []uint8{1, 5, 20}[rng.Intn(3)], Mult: mult, HSTimeout: hs, Lat: lat}
+	rep := map[string]any{"kind": "live-handshake", "syns_lost": k, "conf": conf.String()}
+	synctest.Test(c.T, func(t *testing.T) {
+		ctx, cancel := context.WithCancel(context.Background())
+		defer cancel()
+		p := eng.NewPair(conf)
+		syns := 0
+		p.C2S.SetDecider(func(idx int, pk sim.Pkt, now time.Time) sim.Decision {
+			if pk.Type == sim.TSyn {
+				syns++
+				if syns <= k {
+					return sim.Decision{Drop: true}
+				}
+			}
+			return sim.Decision{}
+		})
+		ce, se := p.Connect(ctx)
+		if ce != nil || se != nil {
+			c.Shard.Inconc(fmt.Sprintf("live handshake did not complete: %v / %v", ce, se))
+			p.CloseAll()
+			return
+		}
+		got := p.C.VerifState().ResendTimeout
+		rtt := 2 * lat
+		want := time.Second
+		if k == 0 {
+			want = time.Duration(mult) * rtt
+		}
+		rep["client_resend_timeout"], rep["expected"] = got.String(), want.String()
+		diff := got - want
+		if diff < 0 {
+			diff = -diff
+		}
+		if diff > want/50 {
+			key := "live-handshake|sample-from-retransmitted-syn"
+			desc := fmt.Sprintf("the first %d SYNs were lost, the answered SYN was a retransmission: the client's resend timeout after the handshake is %v, not the %v default (multiplier %d, round trip %v)", k, got, want, mult, rtt)
+			if k == 0 {
+				key = "live-handshake|control"
+				desc = fmt.Sprintf("clean handshake: the client's resend timeout is %v, expected multiplier x round trip = %v", got, want)
+			}
+			c.Shard.Violate(key, desc, rep)
+		}
+		cancel()
+		p.CloseAll()
+		if lk := eng.Settle(); len(lk) > 0 {
+			c.Shard.Inconc("leak after live handshake (judged by C12): " + lk[0].CreatedBy())
+			mon.FlushAndExit(c.Shard)
+		}
+	})
+	c.Shard.Count("live_handshakes", 1)
+	c.Shard.Eval(fmt.Sprintf("LH|%d|%d|%v", k, mult, lat))
+	if c.Idx%300 == 8 {
+		c.Shard.Sample(rep)
+	}
+}
+
+// runC20LiveNack: the same question in the data phase, where the connection
+// decides what it reports as a retransmission. The first transmission of the
+// client's first data packet is lost, the second packet reaches the server,
+// which answers with a NACK; the client retransmits its window because of that
+// NACK. The acknowledgements of the retransmitted packets are held back for a
+// second, every response is evaluated (update frequency 1) and the multiplier
+// is 50: if a retransmitted packet's acknowledgement were taken as a round-trip
+// sample the timeout would jump to about a minute. All that may legitimately
+// happen to it are retransmission boosts of half a second each.
+func runC20LiveNack(c *mon.Case) {
+	rng := c.Rng
+	lat := time.Duration(20+rng.Intn(60)) * time.Millisecond
+	conf := eng.GBNConf{N: []uint8{2, 5, 20}[rng.Intn(3)], Mult: 50, Freq: 1, Lat: lat}
+	hold := time.Duration(1000+rng.Intn(1000)) * time.Millisecond
+	rep := map[string]any{"kind": "live-nack", "conf": conf.String(), "acks_held_back": hold.String()}
+	synctest.Test(c.T, func(t *testing.T) {
+		ctx, cancel := context.WithCancel(context.Background())
+		defer cancel()
+		p := eng.NewPair(conf)
+		ce, se := p.Connect(ctx)
+		if ce != nil || se != nil {
+			c.Shard.Inconc(fmt.Sprintf("live handshake did not complete: %v / %v", ce, se))
+			p.CloseAll()
+			return
+		}
+		data, resends, nacks := 0, 0, 0
+		seen := map[byte]bool{}
+		p.C2S.SetDecider(func(idx int, pk sim.Pkt, now time.Time) sim.Decision {
+			if pk.Type == sim.TData && !pk.Ping {
+				data++
+				if seen[pk.Seq] {
+					resends++
+				}
+				seen[pk.Seq] = true
+				if data == 1 {
+					return sim.Decision{Drop: true}
+				}
+			}
+			return sim.Decision{}
+		})
+		p.S2C.SetDecider(func(idx int, pk sim.Pkt, now time.Time) sim.Decision {
+			if pk.Type == sim.TNack {
+				nacks++
+			}
+			if pk.Type == sim.TAck && nacks > 0 {
+				return sim.Decision{Delay: hold}
+			}
+			return sim.Decision{}
+		})
+		go func() {
+			for {
+				if _, err := p.S.Recv(); err != nil {
+					return
+				}
+			}
+		}()
+		before := p.C.VerifState().ResendTimeout
+		for i := 0; i < 2; i++ {
+			if err := p.C.Send(eng.MsgBytes('a', i, 20)); err != nil {
+				c.Shard.Inconc("live nack: send failed: " + err.Error())
+				p.CloseAll()
+				return
+			}
+		}
+		time.Sleep(hold + 3*time.Second)
+		got := p.C.VerifState().ResendTimeout
+		rep["timeout_before"], rep["timeout_after"], rep["retransmissions_seen"], rep["nacks_seen"] = before.String(), got.String(), resends, nacks
+		// every retransmission may boost the timeout by half of its base
+		// value; nothing else may raise it here (no valid sample exceeds
+		// the floor: 50 x round trip <= 8 s only if the round trip were
+		// 160 ms, and the largest used here is 160 ms -> floor or 8 s)
+		limit := before + time.Duration(resends+1)*before/2
+		if valid := 50 * 2 * lat; valid > limit {
+			limit = valid + valid/50
+		}
+		if nacks > 0 && got > limit {
+			c.Shard.Violate("live-nack|sample-from-retransmitted-packet", fmt.Sprintf("after a NACK-driven retransmission whose acknowledgements were held back for %v the client's resend timeout is %v (before: %v; %d retransmissions seen allow at most %v through boosts, a valid sample at most %v)", hold, got, before, resends, before+time.Duration(resends+1)*before/2, 50*2*lat), rep)
+		}
+		if nacks > 0 {
+			c.Shard.Count("live_nack_resends", 1)
+		}
+		cancel()
+		p.CloseAll()
+		if lk := eng.Settle(); len(lk) > 0 {
+			c.Shard.Inconc("leak after live nack case (judged by C12): " + lk[0].CreatedBy())
+			mon.FlushAndExit(c.Shard)
+		}
+	})
+	c.Shard.Eval(fmt.Sprintf("LN|%v|%v|%d", lat, hold, conf.N))
+	if c.Idx%300 == 18 {
+		c.Shard.Sample(rep)
+	}
+}
+
 func runC20(c *mon.Case) {
+	if c.Idx%20 == 18 {
+		runC20LiveNack(c)
+		return
+	}
 	if c.Idx%10 == 9 {
 		runC20Live(c)
+		return
+	}
+	if c.Idx%10 == 8 && c.Idx%20 == 8 {
+		runC20LiveHandshake(c)
 		return
 	}
 	rng := c.Rng
